@@ -429,7 +429,10 @@ def run(ctx: Ctx):
     leanproj.check_theorems(ctx, MODULE, THEOREMS)
     from .registry import THEOREMS_C09C, THEOREMS_RESUMETIE
     from ..translate import gen as _gen
-    _gen.regenerate(ctx, ["ResumeIdx"])
+    _gen.regenerate(ctx, ["ResumeIdx", "StepBody"])
+    from .registry import THEOREMS_STEPTIE
+    # translator tie: the auxiliary density is propagated BEFORE the force evaluation that uses it, and the nuclei move by velocity Verlet
+    leanproj.check_theorems(ctx, "PyseqmVerif.Properties.StepTie", [t for t in THEOREMS_STEPTIE if "xl_" in t or "esmd" in t])
     leanproj.check_theorems(ctx, "PyseqmVerif.Properties.ResumeTie", [t for t in THEOREMS_RESUMETIE if "xlSlot" in t])
     leanproj.check_theorems(ctx, "PyseqmVerif.Properties.C09c", THEOREMS_C09C)
     drv = leanproj.Driver()
